@@ -34,7 +34,11 @@ func (c *Ctx) mkComb(root *Node, obj *AV, canon bool) *combCase {
 	cc := &combCase{root: root, obj: obj, text: c.style(canon).Render(root)}
 	root.Leaves(&cc.leaves)
 	m := obj.GoMap()
-	cc.whole = evalFresh(cc.text, m)
+	poison := poisonObjects(c.R, root)
+	if poison != nil {
+		c.count("whole_on_reused_evaluator")
+	}
+	cc.whole = evalOn(cc.text, m, poison)
 	cc.shapeOK = true
 	for _, lf := range cc.leaves {
 		lt := c.style(true).Render(lf)
